@@ -321,7 +321,7 @@ func genSpec(extreme bool) *rapid.Generator[*fontSpec] {
 			s.Registry = rapid.SampledFrom([]string{"Adobe", "Adobe", "Test", "space", "R"}).Draw(t, "Registry")
 			s.Ordering = rapid.SampledFrom([]string{"Identity", "Japan1", "GB1", "Adobe", "Bold", "O"}).Draw(t, "Ordering")
 			s.Supplement = rapid.OneOf(rapid.Int32Range(0, 7), genInt32()).Draw(t, "Supplement")
-			s.CIDMode = weighted(t, "CIDMode", 1, 1, 1, 1, 1)
+			s.CIDMode = weighted(t, "CIDMode", 1, 1, 1, 1, 1, 1)
 			s.CIDSeed = rapid.Uint64().Draw(t, "CIDSeed")
 			many := 1
 			if stats.Thorough() {
@@ -353,7 +353,7 @@ func genSpec(extreme bool) *rapid.Generator[*fontSpec] {
 				s.FDRuns = rapid.IntRange(256, s.N/3-4).Draw(t, "FDRunsMany")
 			}
 		} else {
-			s.NameMode = weighted(t, "NameMode", 2, 1, 1, 1, 2, 2, 3)
+			s.NameMode = weighted(t, "NameMode", 2, 1, 1, 1, 2, 2, 3, 1)
 			s.NameSeed = rapid.Uint64().Draw(t, "NameSeed")
 			s.EncMode = weighted(t, "EncMode", 2, 2, 1, 2, 2, 3, 3)
 			s.EncSeed = rapid.Uint64().Draw(t, "EncSeed")
